@@ -35,7 +35,7 @@ ASSUMPTIONS = [
     "a substituted text that itself contains braces is re-resolved by the library: covered by the recorded finding template-reresolves-substituted-braces, otherwise not generated",
 ]
 FLOORS = {"values_compared": (6000, 100000), "missing_key_failures": (800, 15000), "transitive_substitutions": (1500, 30000),
-          "outcome_changing_present_paths": (4000, 80000), "outcome_changing_absent_paths": (800, 15000), "escaped_brace_cases": (300, 5000), "hostile_key_steps": (8000, 150000), "hostile_fail_then_complete": (300, 6000)}
+          "outcome_changing_present_paths": (4000, 80000), "outcome_changing_absent_paths": (800, 15000), "escaped_brace_cases": (300, 5000), "hostile_key_steps": (8000, 150000), "hostile_fail_then_complete": (300, 6000), "whole_parameter_cases": (14, 14)}
 SHARDS_QUICK = 4
 
 PIECES = ["lit", "-", "{A}", "{B}", "{C}", "{S.X}", "{S.Y}", "{T.X}", "{L.0}", "{L.1}", "{D}", "{:p:}", "{:q:}", "\\{esc\\}", "x\\{y\\}z"]
@@ -313,6 +313,41 @@ def hostile_keys(ctx, program, base, r, case):
     ctx.nontrivial(spec_hash(["hostile-keys", program, base, case]))
 
 
+def whole_parameter(ctx):
+    """A template that is exactly one parameter placeholder yields the string form of the parameter's value whatever
+    that string looks like (braces included: a section, an empty dict, a set, a list of sections) - the parameter is a
+    value, not template text."""
+    from labrea import Option, Template, dataset
+
+    def a_set():
+        return {7}
+
+    def sections():
+        return [{"a": 1}, {"b": [2]}]
+
+    o = {"S": {"X": 1, "Y": "{B}"}, "B": "b", "T": {}, "A": "a"}
+    params = {"section": Option("S"), "empty-section": Option("T"), "empty-dict-default": Option("E", default_factory=dict),
+              "set-from-dataset": dataset.nocache(a_set), "list-of-sections": dataset.nocache(sections), "plain": Option("A"), "number": Option("N", 3)}
+    for name, p_ in params.items():
+        for text, build_exp in (("{:p:}", lambda v: str(v)), ("{:p:}", lambda v: str(v))):
+            t = Template(text, p=p_)
+            with labrea.cache.disabled():
+                want = observe(lambda: build_exp(p_.evaluate(copy.deepcopy(o))))
+                got = observe(t.evaluate, copy.deepcopy(o))
+                ks = observe(t.keys, copy.deepcopy(o))
+                pk = observe(p_.keys, copy.deepcopy(o))
+            ctx.evaluations += 2
+            ctx.count("whole_parameter_cases")
+            W = {"family": "whole-parameter", "parameter": name}
+            if got != want:
+                ctx.violation("template-value", f"Template('{{:p:}}', p={name}) gives {short(got)}; the string form of the parameter's value is {short(want)}", W)
+                return
+            if ks[0] == "ok" and pk[0] == "ok" and not set(k[1] for k in pk[1][1]) <= set(k[1] for k in ks[1][1]):
+                ctx.violation("read-not-reported-by-keys", f"Template('{{:p:}}', p={name}): keys {short(ks)} do not cover the parameter's keys {short(pk)}", W)
+                return
+            ctx.nontrivial(spec_hash(["whole-parameter", name]))
+
+
 def known_finding_reproducer(ctx):
     """Recorded finding: a substituted text that itself contains braces is resolved again."""
     from labrea import Option, Template
@@ -333,6 +368,7 @@ def known_finding_reproducer(ctx):
 def run(ctx):
     if ctx.shard == 0:
         known_finding_reproducer(ctx)
+        whole_parameter(ctx)
     n = ctx.n(2400, 40000)
     for i in range(n):
         r = case_rng(ctx, i)
@@ -350,7 +386,9 @@ def run(ctx):
 
 def replay(ctx, rep):
     w = rep["witness"]
-    if w.get("family") == "hostile-keys":
+    if w.get("family") == "whole-parameter":
+        whole_parameter(ctx)
+    elif w.get("family") == "hostile-keys":
         ctx.shard, ctx.shards = w.get("shard", 0), w.get("shards", 1)
         hostile_keys(ctx, w["program"], w["base"], case_rng(ctx, ("hostile", w["case"])), w["case"])
     elif "program" in w:
